@@ -426,6 +426,7 @@ def run_history(history):
     tor = ScriptedTor(proto, t, history.get('hseed', 0), on_step)
     made = []      # per cell: dict(svc=, sid=) or None
     pending = []
+    auth_objs = {}
 
     for ci, cell in enumerate(history['cells']):
         state['ci'] = ci
@@ -441,7 +442,12 @@ def run_history(history):
         rec, sync_exc = None, None
         try:
             if auth is not None:
-                a = O.AuthBasic([(n, _subst(tok)) if tok is not None else n for n, tok in auth])
+                # 'share_auth': re-use the AuthBasic object of an earlier cell (a caller creating two services
+                # from one credentials object): the request is still the cell's own client list
+                a = auth_objs.get(cell.get('share_auth')) if cell.get('share_auth') is not None else None
+                if a is None:
+                    a = O.AuthBasic([(n, _subst(tok)) if tok is not None else n for n, tok in auth])
+                auth_objs[ci] = a
                 d = O.EphemeralAuthenticatedOnionService.create(
                     reactor, config, ports_arg, detach=cell['detach'], private_key=key_arg, version=cell['version'],
                     auth=a, single_hop=cell['single_hop'])
@@ -814,6 +820,17 @@ def _twin(tier, seed):
                     run({'cells': [cell], 'remove_order': [0], 'hseed': n})
                     evaluations += 1
                     n += 1
+        # (c) two services requested from ONE AuthBasic object (clients with and without tokens): the second request must be the same
+        for version in (2,):
+            for ap in [a for a in auths if a is not None and len(a) >= 1]:
+                c1 = make_cell(version, 'none', False, False, ap, shapes[n % len(shapes)], n, 1)
+                c2 = dict(make_cell(version, 'none', False, False, ap, shapes[(n + 1) % len(shapes)], n, 1))
+                c2['share_auth'] = 0
+                c1['tor'] = c2['tor'] = 'ok'
+                c1['via'] = c2['via'] = 'create'
+                run({'cells': [c1, c2], 'remove_order': [0, 1], 'hseed': n})
+                evaluations += 1
+                n += 1
         nrand = 250
         bounds_sys = ('all %d option combinations (2 versions x 6 key kinds x detach x single-hop x 16 auth settings) with cycled port shapes, '
                       'plus all %d port shapes (1..3 mappings over int/pair/pair-unix/string/string-unix) x 2 versions x 3 key kinds'
